@@ -164,6 +164,37 @@ pub fn shrink(h: &History, budget: usize) -> Option<(History, usize)> {
             }
         }
     }
+    // shrink the documents: remove subtrees and attributes the failure does not need
+    for d in 0..cur.docs.len() {
+        let mut progress = true;
+        while progress && execs < budget {
+            progress = false;
+            let (text, expanded) = cur.docs[d].clone();
+            let items = removable(&text);
+            for it in items {
+                if execs >= budget {
+                    break;
+                }
+                if let Some(t2) = remove_item(&text, &it) {
+                    if t2.len() >= text.len() {
+                        continue;
+                    }
+                    let mut c = cur.clone();
+                    c.docs[d] = (t2.clone(), expanded);
+                    // a twin stays a twin
+                    if d == 0 && c.docs.len() > 1 && c.docs[1].0 == text {
+                        c.docs[1].0 = t2;
+                    }
+                    if let Some((at, _)) = reproduces(&c, &prop, &clause, &mut execs) {
+                        cur = c;
+                        cur.steps.truncate(at + 1);
+                        progress = true;
+                        break;
+                    }
+                }
+            }
+        }
+    }
     // drop the query pool entries that are not needed
     if !cur.diff_pool.is_empty() && execs < budget {
         let mut i = 0;
@@ -201,4 +232,105 @@ pub fn shrink(h: &History, budget: usize) -> Option<(History, usize)> {
     cur.steps.truncate(at + 1);
     cur.expect = Some((at, prop, clause, detail));
     Some((cur, execs))
+}
+
+// ---------------------------------------------------------------------------------------------
+// document shrinking through the library's own DOM (the candidate is only kept if the failure persists)
+
+#[derive(Clone, Debug)]
+enum Item {
+    Node(Vec<usize>),
+    Attr(Vec<usize>, String),
+}
+
+fn parse(text: &str) -> Option<xml_dom::XmlDocument> {
+    crate::real::guarded(|| match xml_dom::XmlDocument::from_raw(text) {
+        Ok((rest, d)) if rest.is_empty() => Some(d),
+        _ => None,
+    })
+    .ok()
+    .flatten()
+}
+
+fn node_at(d: &xml_dom::XmlDocument, path: &[usize]) -> Option<xml_dom::XmlNode> {
+    use xml_dom::{AsNode, Node, NodeList};
+    let mut cur = d.as_node();
+    for i in path {
+        cur = cur.child_nodes().item(*i)?;
+    }
+    Some(cur)
+}
+
+/// everything that can be taken out: larger subtrees first
+fn removable(text: &str) -> Vec<Item> {
+    use xml_dom::{AsNode, Attr, Node, XmlNode};
+    let mut out = vec![];
+    let d = match parse(text) {
+        Some(d) => d,
+        None => return out,
+    };
+    let r = crate::real::guarded(|| {
+        let mut items = vec![];
+        let mut stack: Vec<(XmlNode, Vec<usize>)> = vec![(d.as_node(), vec![])];
+        let mut guard = 0;
+        while let Some((n, path)) = stack.pop() {
+            guard += 1;
+            if guard > 2000 {
+                break;
+            }
+            if let Some(m) = n.attributes() {
+                for a in m.iter() {
+                    items.push(Item::Attr(path.clone(), a.name()));
+                }
+            }
+            let kids: Vec<XmlNode> = n.child_nodes().iter().collect();
+            for (i, k) in kids.iter().enumerate() {
+                let mut p = path.clone();
+                p.push(i);
+                let is_root_element = path.is_empty() && matches!(k, XmlNode::Element(_));
+                let is_doctype = matches!(k, XmlNode::DocumentType(_));
+                if !is_root_element && !is_doctype {
+                    items.push(Item::Node(p.clone()));
+                }
+                if matches!(k, XmlNode::Element(_)) {
+                    stack.push((k.clone(), p));
+                }
+            }
+        }
+        items
+    });
+    if let Ok(items) = r {
+        out = items;
+    }
+    out
+}
+
+fn remove_item(text: &str, it: &Item) -> Option<String> {
+    use xml_dom::{ElementMut, Node, NodeMut, XmlNode};
+    let d = parse(text)?;
+    crate::real::guarded(|| {
+        match it {
+            Item::Node(path) => {
+                let n = node_at(&d, path)?;
+                let parent = n.parent_node()?;
+                match parent {
+                    XmlNode::Element(e) => e.remove_child(&n).ok()?,
+                    XmlNode::Document(doc) => doc.remove_child(&n).ok()?,
+                    _ => return None,
+                };
+            }
+            Item::Attr(path, name) => {
+                if let XmlNode::Element(e) = node_at(&d, path)? {
+                    e.remove_attribute(name).ok()?;
+                } else {
+                    return None;
+                }
+            }
+        }
+        let t = format!("{}", d);
+        // only keep candidates the parser still accepts
+        parse(&t).map(|_| t)
+    })
+    .ok()
+    .flatten()
 }
